@@ -98,6 +98,7 @@ class Store:
         self.shuffle_ls = shuffle_ls
         self.opn = 0
         self.frozen = False
+        self.foreign_failed = False   # a fault fired in a call made by one of pyarrow's threads
         self.hidden = {}                      # path -> visible from t
         self.ghost = {}                       # path -> (gone from t, info)
         self.fired = {}
@@ -198,6 +199,17 @@ class SimFS(AbstractFileSystem):
         if depth:
             return do()
         sim = st.sim
+        foreign = not sim.in_sim_thread()
+        if foreign and (st.foreign_failed or st.frozen):
+            # a call from one of pyarrow's own threads (it opens the fragments of a multi-file
+            # read there) after that read has already met a fault: whether Arrow still gets to
+            # issue it before the failure is delivered is a race inside Arrow.  The failed
+            # read fails as a whole - this call fails too and is neither counted nor logged,
+            # so the event log is the same whichever way the race goes.
+            if st.frozen:
+                raise SimCrash("storage frozen")
+            cls, args = st.foreign_failed
+            raise cls(*args)
         p = st.check(self._strip_protocol(path)) if path is not None else None
         st.opn += 1
         k = st.opn
@@ -212,6 +224,8 @@ class SimFS(AbstractFileSystem):
             fault = None
         st.ops.append((k, op, rel))
         yieldable = sim.in_sim_thread() and not _foreign_frames_on_stack()
+        if yieldable:
+            st.foreign_failed = False      # back in the library's own code: a new request
         cost = st.latency * (0.2 + 1.6 * sim.rng.random()) * default_cost
         kind = fault[0] if fault else None
         if kind == "SLOW":
@@ -222,6 +236,11 @@ class SimFS(AbstractFileSystem):
             sim.point("fs", detail, cost)
         else:
             sim.atomic("fs*", detail, cost)
+        if not yieldable and kind in ("CRASH", "EIO", "ENOSPC", "ENOENT", "TORN"):
+            # a fault inside a pyarrow call: that call fails, with this error
+            st.foreign_failed = (FileNotFoundError, (errno.ENOENT, "injected ENOENT")) \
+                if kind == "ENOENT" else (OSError, (errno.ENOSPC if kind == "ENOSPC" else errno.EIO,
+                                                    f"injected {kind}"))
         if st.frozen:
             raise SimCrash(f"storage frozen (op {k} {op} {rel})")
         if kind == "CRASH":
